@@ -33,6 +33,14 @@ def hash_cases(ctx, n):
                               finding_key_of=lambda k, p: 'hash', shard=500)
 
 
+def offtable_key(c):
+    """The known finding covers exactly: KeyError naming a bond type, on a molecule that has a bond between retained atoms whose
+    type is outside the five-entry table.  Any other exception is an unlisted violation."""
+    if c.err == 'EKey' and 'BondType' in (c.exc or '') and c.has_offtable_bond():
+        return 'C02:bond-type-outside-table'
+    return None
+
+
 def dative_case(ctx):
     """A sanitised molecule with a bond type outside BOND_TYPES (DATIVE): the property says fingerprinting succeeds."""
     from rdkit import Chem
@@ -60,7 +68,7 @@ def run(ctx):
         if c.err is not None and c.heavy_retained():
             found = True
             ctx.fail('fingerprinting raised %s on a sanitised molecule with %d retained heavy atoms' % (c.exc, len(c.heavy_retained())),
-                     c.payload(), finding_key='C02:raises:' + c.err)
+                     c.payload(), finding_key=offtable_key(c))
     # threshold-directed symmetric centres (mean-vector branch of pick_y on both sides of its 0.1 A threshold)
     sym_pool = [molgen.synthetic_symmetric(ctx.rng) for _ in range(ctx.n(30, 400))]
     cases += m1lib.gen_cases(ctx, ctx.n(20, 300), pool=sym_pool,
@@ -71,8 +79,7 @@ def run(ctx):
     if dc is not None:
         cases.append(dc)
         if dc.err is not None:
-            ctx.fail('fingerprinting raised %s on a sanitised molecule with a DATIVE bond' % dc.exc, dc.payload(),
-                     finding_key='C02:bond-type-outside-table')
+            ctx.fail('fingerprinting raised %s on a sanitised molecule with a DATIVE bond' % dc.exc, dc.payload(), finding_key=offtable_key(dc))
     found |= m1lib.run_cases(ctx, cases, 'C02 E3FP core') > 0
     ctx.coverage['rule'] = ('random int64 arrays against mmh3; (molecule, conformer, options) cases from %d SMILES embedded offline and the shipped SDFs, '
                             'coordinates on a 2^-16 A grid, options sampled over level/multiplier/stereo/duplicate removal/connected-only/invariants/'
